@@ -187,14 +187,6 @@ Definition name_canon (n : key_name) : Prop :=
   | _ => True
   end.
 
-Definition name_canonb (n : key_name) : bool :=
-  match n with
-  | KChar c => is_plain c || (c =? 32)
-  | KF i => i <=? usize_max
-  | KMouseLeft | KMouseMiddle | KMouseMove | KMouseRight | KMouseWheelDown | KMouseWheelUp => false
-  | _ => true
-  end.
-
 Lemma name_canonb_true n : name_canonb n = true <-> name_canon n.
 Proof.
   destruct n; cbn; try (split; [intros _; exact I | reflexivity]); try (split; [discriminate | intros []]).
@@ -318,11 +310,16 @@ Section WithLower.
 
   (* ------------------------------------------- what the parsers return *)
 
+  (* re-checked against the regenerated table on every run: every value a literal arm of the source can
+     return is one that prints to something the parser accepts *)
   Lemma named_keys_canon : Forall (fun p => name_canon (snd p)) named_keys.
   Proof.
-    apply Forall_forall. intros p Hp. apply name_canonb_true. revert p Hp. apply Forall_forall.
-    unfold named_keys. repeat (constructor; [vm_compute; reflexivity|]). constructor.
+    assert (H : forallb (fun p => name_canonb (snd p)) named_keys = true) by (vm_compute; reflexivity).
+    apply Forall_forall. intros p Hp. apply name_canonb_true. rewrite forallb_forall in H. apply H, Hp.
   Qed.
+
+  Lemma tables_are_complete : tables_complete = true.
+  Proof. vm_compute. reflexivity. Qed.
 
   Lemma parse_name_canon s n : parse_name s = Ok n -> name_canon n.
   Proof.
